@@ -422,13 +422,18 @@ def _name(x):
 # --------------------------------------------------------------------- CLI
 
 def run_cli(spec, argv, timeout=120, extra_env=None, extra_files=None,
-            keep=False, cwd=None):
+            keep=False, cwd=None, barrier=True):
     root = env.scratch('vtcli')
     res = Result()
     try:
         worldrt.write_disk(spec, root, extra_files)
         tr = os.path.join(root, 'trace.jsonl')
+        os.makedirs(os.path.join(root, 'barrier'))
         e = env.child_env({'VT_TRACE': tr})
+        if barrier:
+            e['VT_BARRIER'] = os.path.join(root, 'barrier')
+        else:
+            e.pop('VT_BARRIER', None)
         if extra_env:
             e.update(extra_env)
         cmd = [env.PY, '-m', 'zope.testrunner', '--path', root] + list(argv)
